@@ -1,5 +1,6 @@
 pub mod c01;
 pub mod c02;
+pub mod c03;
 pub mod c04;
 pub mod c05;
 pub mod c07;
@@ -28,6 +29,7 @@ pub fn lookup(id: &str) -> Option<(&'static str, RunFn, ReplayFn, &'static str, 
     Some(match id {
         "C01" => ("C01", c01::run, c01::replay_any, "exploration", c01::worker),
         "C02" => ("C02", c02::run, c02::replay, "exploration", c02::worker),
+        "C03" => ("C03", c03::run, c03::replay, "exploration", c03::worker),
         "C04" => ("C04", c04::run, c04::replay, "exploration", c04::worker),
         "C05" => ("C05", c05::run, c05::replay, "exploration", c05::worker),
         "C07" => ("C07", c07::run, c07::replay, "exploration", c07::worker),
